@@ -12,6 +12,58 @@ def sessions(ctx):
     return it
 
 
+def real_gdb_sessions(ctx, rep):
+    """the same kind of event sequences - messages on several connection addresses (client and server side, from the main and
+    from other threads), destructions of known / closed / never-seen connections, address reuse - executed by the real plugin
+    inside the real gdb on the mock libwayland"""
+    import random
+    import e3session, gen, protoextract, tracecheck
+    d = protoextract.load()
+    traces = []
+    for k in range(ctx.pick(12, 80)):
+        r = random.Random(ctx.seed * 7919 + k)
+        addrs = ['0x5555aa10', '0x5555bb20', '0x7ffff0c0'][:r.randint(1, 3)]
+        live, ev, t = {}, [], 5000
+        for _ in range(r.randint(12, 45)):
+            t += 10
+            a = r.choice(addrs)
+            c = r.random()
+            if c < 0.18:
+                target = a if r.random() < 0.7 else r.choice(addrs + ['0xdeadbeef'])
+                ev.append({'in': {'e': 'destroy', 'addr': target}})
+                live.pop(target, None)
+                continue
+            first = a not in live
+            if first:
+                side = r.random() < 0.4
+                live[a] = gen.ConnGen(r, a, side, d['proto'], d['kinds'], set(d['amb_msgs']), [i for i in gen.CORE_IFACES if i in d['proto']])
+                if r.random() < 0.2:
+                    live[a].started = True
+            m = live[a].next(t)['m']
+            if any(x['k'] == 'array' for x in m['args']):
+                for x in m['args']:
+                    if x['k'] == 'array':
+                        x['n'] = 0
+            e = {'e': 'hit', 'addr': a, 'thread': r.choice([1, 1, 1, 2]), 't': t, 'm': m}
+            if first:
+                e['side'] = 'server' if live[a].server_side else 'client'
+            ev.append({'in': e})
+        tr = {'init': {'show': True, 'hasf': False, 'hasb': False}, 'events': ev}
+        e3session.run(tr)
+        traces.append(tr)
+        rep.case('real-gdb:' + str(k))
+    v = tracecheck.validate_parallel(traces, name='c15gdb', spec=gdbbase.SPEC)
+    rep.add_tlc(v, 'TraceGdb on %d sessions of the real plugin in the real gdb (%d events)' % (v.ntraces, v.nsteps))
+    rep.traces += v.ntraces
+    rel = relevant('C15')
+    for t, l, asp in v.failing(rel):
+        tr = traces[t - 1]
+        rep.violation('real-gdb:' + classify(tr, l, [a for a in asp if rel(a)]),
+                      'in the real gdb, event %d (%s) differs from GdbSession!GStep in %s' % (l, sessionprop.describe(tr, l), [a for a in asp if rel(a)]),
+                      {'kind': 'realgdb', 'trace': sessionprop.inputs_only(tr), 'step': l})
+    rep.extra['real_gdb_sessions'] = len(traces)
+
+
 def classify(trace, step, aspects):
     ev = trace['events'][step - 1]['in']
     if 'raised' in aspects and ev['e'] == 'destroy':
@@ -29,8 +81,12 @@ def run(ctx):
         '(E3-lite); P3: random sequences dense in destructions and address reuse. Notices, X: prefixes, incarnation letters after reuse, '
         'escaping exceptions and unexpected halts are compared with GdbSession!GStep by TLC.',
         sessions(ctx), relevant('C15'), classify=classify)
+    real_gdb_sessions(ctx, rep)
     return rep
 
 
 def replay(ctx, data):
+    if data.get('kind') == 'realgdb':
+        import copy, e3session
+        return sessionprop.replay_session(ctx, data, relevant('C15'), runner=lambda tr, render: e3session.run(tr), spec=gdbbase.SPEC)
     return sessionprop.replay_session(ctx, data, relevant('C15'), runner=gdbbase.runner, spec=gdbbase.SPEC)
